@@ -163,11 +163,13 @@ def run(chk, repo):
         return None
 
     def ah(ev, node):
-        t = unparse(node)
-        if t == "fir_filt.numpoly[%s]" % mv:
-            return RF.sym("a_m")
-        if t == "fir_filt.numpoly[0]":
-            return RF.sym("a_0")
+        if isinstance(node, ast.Subscript) and unparse(node.value) == "fir_filt.numpoly":
+            idx = ev.ev(node.slice)
+            if idx == RF.sym(mv):
+                return RF.sym("a_m")
+            if idx == 0:
+                return RF.sym("a_0")
+            return opaque("coef", idx)
         return None
     env = {"z": RF.sym("x") ** -1, "fir_filt": RF.sym("A")}
     try:
